@@ -258,6 +258,7 @@ type CanonSet struct {
 	Flags   [4]bool        `json:"flags"` // notices, warnings, errors, fatals
 	Results map[string]Res `json:"results"`
 	Panic   string         `json:"panic,omitempty"` // a panic that reached the caller
+	Hung    bool           `json:"hung,omitempty"`  // the call did not return (per-call watchdog)
 }
 
 func (c *CanonSet) hash() string {
